@@ -1,5 +1,7 @@
 /- C11: invariants of the CacheMgr transition system and their preservation (part 1: who holds which mutex) -/
 import SemaModel.C11.Model
+set_option linter.unusedSimpArgs false
+set_option linter.unusedVariables false
 namespace Sema.C11
 
 @[simp] theorem upd_same {α β : Type} [DecidableEq α] (f : α → β) (a : α) (b : β) : upd f a b a = b := by
